@@ -577,4 +577,114 @@ class SimpleCacheGetAllEntries(Contract):
                 ("the-stored-entry", z3.Implies(i0.n != 0, z3.And(same("inputs", i0), same("outputs", o0), same("jacobian", j0))))]
 
 
+# =============================================================================== BaseDiscipline.__can_load_cache with a FULL cache
+# The branch of the data converters: the cached output arrays are converted back to grammar values (array -> float/int/str for the
+# non-array output types).  The entry returned by the cache MAY BE the stored one (MemoryFullCache(is_memory_shared=False) hands out its
+# dictionaries): the conversion must be written into a COPY - the frame clause below; see DATA_S in contracts/c05_full_cache.py.
+from contracts.c05_caches import ARR  # noqa: E402
+from contracts.c05_discipline import DISC, GR, IOC, merged, same_dict_obj  # noqa: E402
+from contracts.c05_full_cache import BfcGetitem, buckets_same, ghosts_same  # noqa: E402
+from pyvc.values import TSet  # noqa: E402
+
+CONV = "gemseo.core.data_converters.base.BaseDataConverter"
+schema(CONV, {})
+schema(GR + "#conv", {"_names": TSet(TStr), "_data_converter": TObj(CONV)})
+schema(IOC + "#full", {"_IO__data": DATA, "input_grammar": TObj(GR), "output_grammar": TObj(GR, schema_key=GR + "#conv")})
+schema(DISC + "#full", {"name": TStr, "cache": TObj(BFC), "io": TObj(IOC, schema_key=IOC + "#full")})
+conv_value = z3.Function("convert_array_to_value", StrS, ValS, ValS)  # the grammar value of a cached array (per output name)
+WRITTEN = "fc_entry_written"
+
+
+@register
+class ConvertArrayToValue(Contract):
+    targets = (CONV + ".convert_array_to_value",)
+    prop = ("C05",)
+    params = {"name": TStr, "array": ARR}
+    returns = ARR
+    modifies = ("heap:arr",)
+    trusted = True
+    description = ("assumed (data converters): the grammar value of a cached array is a function of the output name and of the content of the array "
+                   "(the array itself for array types, array[0] for float/int/str types); the given array is not modified")
+
+    def ensures(self, c):
+        h0, h1 = c.old_sym("arr", ValS), c.new_sym("arr", ValS)
+        return [("value", h1[c.result] == conv_value(sterm(c.old.name), h0[c.old.array])), ("allocated", z3.And(c.result > 0, c.result <= c.new_ctr)),
+                ("heap-preserved", heap_preserved(c))]
+
+
+def _convert_inv(c, k):
+    """After k names: their values are converted, the others are still the cached arrays; no dictionary of the cache was written to."""
+    co = c.locals["cache_output"]
+    pre = c.pre_locals["cache_output"]
+    h1 = c.new_sym("arr", ValS)
+    hpre = c.st.ex._loop_pre[0].sym.get("arr", c.old_sym("arr", ValS))
+    cpre = c.st.ex._loop_pre[0].ctr
+    s, a = kq("k!cv"), z3.Int("a!cv")
+    pos = c.seq.pos
+    return [("names", z3.And(co.n == pre.n, FA([s], co.member[s] == pre.member[s], co.member[s]))),
+            ("converted-so-far", FA([s], z3.Implies(z3.And(pre.member[s], pos[s] < k), z3.And(h1[co.vals[s]] == conv_value(s, hpre[pre.vals[s]]), co.vals[s] > 0, co.vals[s] <= c.new_ctr)), co.vals[s])),
+            ("not-yet-converted", FA([s], z3.Implies(z3.And(pre.member[s], pos[s] >= k), co.vals[s] == pre.vals[s]), co.vals[s])),
+            ("no-cache-dictionary-written", z3.Not(c.new_ghost(WRITTEN, z3.BoolSort()))),
+            ("cached-arrays-allocated", FA([s], z3.Implies(pre.member[s], z3.And(pre.vals[s] > 0, pre.vals[s] <= cpre)), pre.vals[s])),
+            ("heap-since-the-conversion-began", z3.And(c.new_ctr >= cpre, z3.ForAll([a], z3.Implies(a <= cpre, h1[a] == hpre[a])))),
+            ("heap", heap_preserved(c))]
+
+
+@register
+class CanLoadCacheFull(_Bfc):
+    """``__can_load_cache`` of a discipline holding a FULL cache (exact matching): True iff the entry of the input data has outputs; then the
+    local data are the inputs merged with the CONVERTED cached outputs; and - frame - NOTHING of the cache changes: neither the store, the
+    hash table, the counters... nor any dictionary the cache handed out (which may be the stored entry itself)."""
+
+    targets = (DISC + ".__can_load_cache",)
+    variant = "full"
+    prop = ("C05",)
+    self_schema = DISC + "#full"
+    params = {"input_data": DATA}
+    returns = TBool
+    modifies = ("self.io", "heap:arr", "self.cache._last_accessed_index")
+    loops = {0: LoopSpec(anchor="cache_output.items()", modifies=("cache_output", "heap:arr", "ghost:" + WRITTEN), inv=_convert_inv, local_types={"output_name": TStr, "value": ARR})}
+
+    def v(self, c, which="old"):
+        class _Re:  # the discipline re-rooted at its cache
+            def __init__(self, ns):
+                self.self = ns.self.cache
+
+        class _C:
+            old, new = _Re(c.old), _Re(c.new)
+            old_sym, new_sym, old_ctr, new_ctr, old_ghost, new_ghost = c.old_sym, c.new_sym, c.old_ctr, c.new_ctr, c.old_ghost, c.new_ghost
+
+        return FC(_C, which)
+
+    def requires(self, c):
+        v0 = self.v(c)
+        return ri(v0) + [("exact-matching", v0.tol == 0), ("input-allocated", allocated(c.old.input_data, c.old_ctr)),
+                         ("no-cache-dictionary-written-so-far", z3.Not(c.old_ghost(WRITTEN, z3.BoolSort())))]
+
+    def ensures(self, c):
+        v0, v1 = self.v(c), self.v(c, "new")
+        inp = c.old.input_data
+        ci = cont(inp, v0.heap)
+        h1 = c.new_sym("arr", ValS)
+        d0, d1 = c.old.self.io._IO__data, c.new.self.io._IO__data
+        i, s = z3.Int("i!cl"), kq("k!cl")
+        out_of = lambda x: OVget(v0.content(x, G_OUT)[s])  # noqa: E731
+        hit = lambda x: z3.And(v0.inR(x), v0.cin[x] == ci, v0.nonempty(x, G_OUT))  # noqa: E731
+        return [
+            ("frame:a-cache-hit-does-not-write-into-the-cached-entry", z3.Not(c.new_ghost(WRITTEN, z3.BoolSort()))),
+            ("frame:cache-unchanged", z3.And(store_same(v0, v1), buckets_same(v0, v1), ghosts_same(v0, v1), v1.M == v0.M)),
+            ("hit:value", FA([i], z3.Implies(hit(i), c.result), v0.cin[i])),
+            ("miss:value", z3.Implies(z3.ForAll([i], z3.Not(hit(i))), z3.Not(c.result))),
+            ("hit:local-data-are-the-inputs-merged-with-the-converted-cached-outputs",
+             FA([i], z3.Implies(hit(i), z3.ForAll([s], z3.And(
+                 d1.has(s) == z3.Or(inp.has(s), v0.dmem(i, G_OUT)[s]),
+                 z3.Implies(d1.has(s), h1[d1.get(s)] == z3.If(v0.dmem(i, G_OUT)[s], conv_value(s, v0.heap[v0.dvals(i, G_OUT)[s]]), v0.heap[inp.get(s)]))))), v0.cin[i])),
+            ("miss:local-data-unchanged", z3.Implies(z3.Not(c.result), same_dict_obj(d1, d0))),
+        ]
+
+
+def OVget(x):
+    return x
+
+
 from contracts import c05_linearize  # noqa: E402,F401  (registers the linearize contracts)
